@@ -314,7 +314,18 @@ func (c *evalCtx) evalImage(files map[string][]byte) []finding {
 			if ok {
 				c.class("verify:ok")
 			} else {
-				add(&finding{Kind: "altered-state", Cmd: "Verify", Detail: fmt.Sprintf("returned HardState %+v, not the state at any admissible prefix [%d,%d]", *hs, c.lo, c.hi)})
+				kind := "altered-state"
+				for p := c.lo - 1; p >= 0; p-- {
+					if e := c.m.at(p, 0, 0); e.st == *hs {
+						kind = "lost-acked-state"
+						break
+					}
+				}
+				if kind == "lost-acked-state" && c.corrupt {
+					c.class("verify:ok")
+				} else {
+					add(&finding{Kind: kind, Cmd: "Verify", Detail: fmt.Sprintf("returned HardState %+v, not the state at any admissible prefix [%d,%d]", *hs, c.lo, c.hi)})
+				}
 			}
 		}
 	}
